@@ -6,7 +6,7 @@
 From Coq Require Import List NArith ZArith Bool.
 From LTV Require Import Common.Bytes.
 From LTV.C07 Require Import Model.
-From LTV.C08 Require Import Model ProofsOrder ProofsLoad ProofsTotal ProofsTok ProofsB32 ProofsMain.
+From LTV.C08 Require Import Model ProofsOrder ProofsLoad ProofsTotal ProofsTok ProofsB32 ProofsDecode ProofsMain.
 Import ListNotations.
 Local Open Scope N_scope.
 
@@ -118,3 +118,52 @@ Print Assumptions base32_complete.
 Theorem base32_alphabet_rfc4648 : forall c, b32_val c = index_of (upper c) rfc_alphabet 0.
 Proof. exact ProofsB32.b32_val_rfc. Qed.
 Print Assumptions base32_alphabet_rfc4648.
+
+(* ---------------------------------------------------------------- the loader on BYTES (link to C07) *)
+
+(* dec_f (flag kept at every node) erases to exactly C07's decoder *)
+Theorem dec_f_erase : forall l, decode_c l = lift (decode_f l).
+Proof. exact ProofsDecode.dec_f_erase. Qed.
+Print Assumptions dec_f_erase.
+
+(* every tree the real decoder can produce has int64 integers (lifting C07.c_value_in_range) *)
+Theorem decode_c_int64 : forall l v fl rest, decode_c l = Ok (v, fl) rest -> int64_ok v = true.
+Proof. exact ProofsDecode.decode_c_int64. Qed.
+Print Assumptions decode_c_int64.
+
+(* flag_unordered is inherited upward: a decoded object is flagged iff something at or below it is *)
+Theorem decode_f_flags_inherited : forall l v rest, decode_f l = Ok v rest ->
+  fclosed v = true /\ any_flag v = fflag v.
+Proof. exact ProofsDecode.decode_f_flags_inherited. Qed.
+Print Assumptions decode_f_flags_inherited.
+
+Theorem piece_count_matches_bytes : forall (H : bytes -> bytes) s d,
+  load_bytes H s = Some (LOk d) ->
+  d_chunk_size d <> 0 /\ d_size d < two63 /\
+  d_chunks d = (d_size d + d_chunk_size d - 1) / d_chunk_size d /\
+  d_chunks d < two32 /\
+  N.of_nat (length (d_pieces d)) = 20 * d_chunks d.
+Proof. exact ProofsMain.piece_count_matches_bytes. Qed.
+Print Assumptions piece_count_matches_bytes.
+
+Theorem sizes_sum_bytes : forall (H : bytes -> bytes) s d,
+  load_bytes H s = Some (LOk d) ->
+  offsets_from 0 (d_files d) /\ sum_size (d_files d) = d_size d /\ d_size d < two63 /\
+  (d_meta d = false -> d_size d <> 0).
+Proof. exact ProofsMain.sizes_sum_bytes. Qed.
+Print Assumptions sizes_sum_bytes.
+
+(* an info dictionary unordered ANYWHERE inside is rejected; what is outside info is irrelevant
+   (load_bytes passes only info's own flag) *)
+Theorem unordered_rejected_bytes : forall (H : bytes -> bytes) s m u rest im iu d,
+  decode_f s = Ok (FMap m u) rest ->
+  flookup k_info m = Some (FMap im iu) ->
+  any_flag (FMap im iu) = true ->
+  load_bytes H s <> Some (LOk d).
+Proof. exact ProofsMain.unordered_rejected_bytes. Qed.
+Print Assumptions unordered_rejected_bytes.
+
+Theorem load_total_bytes : forall (H : bytes -> bytes) s r,
+  load_bytes H s = Some r -> (exists d, r = LOk d) \/ r = LErr EInput \/ r = LErr EBencode.
+Proof. exact ProofsMain.load_total_bytes. Qed.
+Print Assumptions load_total_bytes.
